@@ -1221,12 +1221,18 @@ pub(super) fn nop(
 pub(super) fn ret(
     instruction_graph: &mut il::ControlFlowGraph,
     _successors: &mut [(u64, Option<il::Expression>)],
-    _instruction: &bad64::Instruction,
+    instruction: &bad64::Instruction,
 ) -> Result<()> {
     let block_index = {
         let block = instruction_graph.new_block().unwrap();
 
-        block.branch(expr!("x30"));
+        // `ret {<Xn>}`: the decoder omits the operand when it is the default x30
+        let dst = match instruction.operands().first() {
+            Some(opr) => operand_load(block, opr, 64)?,
+            None => expr!("x30"),
+        };
+
+        block.branch(dst);
 
         block.index()
     };
